@@ -20,8 +20,8 @@ from ref.http_response_check import EOF
 
 ID = "C03"
 LEVEL = "exploration"
-QUICK_N = 16000
-THOROUGH_N = 700000
+QUICK_N = 10000
+THOROUGH_N = 1200000
 CHUNK = 500
 RULE = ("gen(seed): index walks the product version{1.0,1.1} x Connection value (absent, close, "
         "Close, keep-alive, Keep-Alive, 'close, TE', 'TE, close', upgrade, TE) x method "
@@ -126,6 +126,10 @@ def gen(rng, tier, index):
     chunks = [rng.choice([1, 2, 5, 16, 17, 40, 300]) for _ in range(rng.randint(1, 4))]
     window = rng.choice(WINDOWS)
     resp_n = rng.choice([0, 1, 10, 100, 400] if window is None or window >= 16 else [0, 1, 10, 40])
+    if tier == "thorough" and (window is None or window >= 256) and rng.random() < 0.1:
+        resp_n = rng.choice([1500, 3000, 5000])
+        if framing != "none" and finish_at == "end" and rng.random() < 0.5:
+            body_n = rng.choice([1000, 3000])
     req = {"method": method, "version": version, "conn": conn, "framing": framing,
            "body_n": body_n, "chunks": chunks}
     head, rb = _request_bytes(req)
@@ -194,6 +198,34 @@ def _request_bytes(req):
         hs.append(("Transfer-Encoding", "chunked"))
         sizes = [max(1, int(c)) for c in req.get("chunks", [])] or [len(body) or 1]
     return build_request(method, version, hs, body, chunked_sizes=sizes)
+
+
+def simplify(scn):
+    """Extra shrink candidates the generic shrinker cannot reach (None, strings, dict fields)."""
+    import copy
+
+    def alt(path, value):
+        c = copy.deepcopy(scn)
+        cur = c
+        for k in path[:-1]:
+            cur = cur[k]
+        if path[-1] in cur and cur[path[-1]] == value:
+            return None
+        cur[path[-1]] = value
+        return c
+    cands = [alt(("knobs", "window"), None), alt(("knobs", "no_keep_alive"), False),
+             alt(("reader",), {"auto": False, "steps": []}), alt(("tapes",), {}),
+             alt(("req", "method"), "GET"), alt(("req", "framing"), "none"),
+             alt(("req", "conn"), None), alt(("req", "chunks"), []),
+             alt(("handler", "resp"), "buffered"), alt(("handler", "kind"), "buffered"),
+             alt(("handler", "flush_wait"), False), alt(("second",), "after"),
+             alt(("cuts",), []), alt(("gaps",), [])]
+    conn = scn["req"].get("conn")
+    if conn:
+        cands.append(alt(("req", "conn"), conn.lower()))
+    for c in cands:
+        if c is not None:
+            yield c
 
 
 def validate(scn):
@@ -514,9 +546,6 @@ def _judge(scn, res, trace, bad, probe):
                 f"{ctx}: the connection should persist but was closed after the first response "
                 f"(first response Connection: {ctoks})",
                 f"keep.eof_before_second/{version}/{(conn or 'none').lower()}")
-        if b"close" in ctoks:
-            bad("keep.connection_close_sent", f"{ctx}: 'Connection: close' on a response after "
-                f"which the connection persists", f"keep.connection_close_sent/{version}")
         return outcome
 
     # ---- the connection must close
